@@ -136,7 +136,7 @@ theorem corners_near {e : Env K} {eps : K} (h : CoverHyp e eps) {pt : Nat → P 
   obtain ⟨hL, hunit, hd⟩ := edge_eq h.sqrt_nonneg h.sqrt_sq pt k (regime_sq h hr k hk)
   obtain ⟨o0, o1, o2, o3, o4⟩ := outK_bounds e pt n k
   obtain ⟨b1, b2, b3, b4⟩ := shift_bounds e pt n k hk
-  have hreg := hr.2.2.2.2 k hk
+  have hreg := hr.2.2.2.2.1 k hk
   have hw := h.hw
   have t0 := tauAbs_nonneg pt n k
   have t1 := tauAbs_nonneg pt n (k + 1)
